@@ -760,6 +760,20 @@ class ImplGraph(ImplFeat):
         self._sync_heap()
         return str(self._fid(obs))
 
+    def cmd_fresx(self, ts):
+        """the graph handed to the updater was pruned by its owner beforehand"""
+        g = BUILDERS[ts[0]](self.instance)
+        for k in [int(t) for t in ts[3:]]:
+            if k < len(g.nodes) and not g.removed_nodes[k]:
+                g.remove_node(k)
+        try:
+            obs = ResidualGraphUpdater(self.dispatcher, g, remove_completed_machine_nodes=ts[1] == "1",
+                                       remove_completed_job_nodes=ts[2] == "1")
+        except Exception:  # pylint: disable=broad-except
+            return "raise"
+        self._sync_heap()
+        return str(self._fid(obs))
+
     def fmt_fobs(self, i):
         o = self.fheap[i]
         if isinstance(o, ResidualGraphUpdater):
@@ -953,12 +967,30 @@ def save_names(numbers):
 
 
 class ImplViz(ImplGen):
+    def cmd_new(self, ts):
+        held = getattr(self, "held_chart", None)
+        if held is not None:
+            _plt.close(held[0])
+        self.held_chart = None
+        return super().cmd_new(ts)
+
     def cmd_bars(self, ts):
         with _warnings.catch_warnings():
             _warnings.simplefilter("ignore")
             fig, ax = _pgc.plot_gantt_chart(self.dispatcher.schedule)
             bars, legend, _, _ = read_chart(ax)
-            _plt.close(fig)
+            # a chart the caller still holds (the one drawn by the previous `bars`) shows what it showed when it was drawn
+            held = getattr(self, "held_chart", None)
+            self.held_chart = (fig, ax, sorted(bars), list(legend))
+            if held is not None:
+                h_fig, h_ax, h_bars, h_legend = held
+                try:
+                    now_bars, now_legend, _, _ = read_chart(h_ax)
+                except Exception as e:  # pylint: disable=broad-except
+                    now_bars, now_legend = [f"unreadable:{type(e).__name__}"], []
+                _plt.close(h_fig)
+                if (sorted(now_bars), list(now_legend)) != (h_bars, h_legend):
+                    return f"held-chart-changed {lst(sorted(now_bars))} ; legend {lst(now_legend)} (was {lst(h_bars)})"
             # the same chart with the caller's own job names: same bars, each still coloured like the legend entry of ITS job
             names = [f"task {chr(97 + j % 26)}{j}" for j in range(self.instance.num_jobs)]
             fig, ax = _pgc.plot_gantt_chart(self.dispatcher.schedule, job_labels=names)
